@@ -199,9 +199,27 @@ def parse_go():
             calls.append((name, classes, fn))
         for m in re.finditer(r"C\.(PATHRS_\w+)", src_nc):
             consts.append(m.group(1))
+        # named constants: pathrsProcSelf pathrsProcBase = C.PATHRS_PROC_SELF
+        for m in re.finditer(r"^\s*(\w+)\s+(?:\w+\s+)?=\s*C\.(PATHRS_\w+)\s*$", src_nc, flags=re.M):
+            ALIASES.append(("go", m.group(1), m.group(2)))
+            GO_PRIVATE[m.group(1)] = m.group(2)
+        # the public enumeration is mapped onto the private names in a switch: case ProcBaseSelf: return pathrsProcSelf, nil
+        for m in re.finditer(r"case\s+(ProcBase\w+)\s*:\s*return\s+(pathrsProc\w+)\s*,", src_nc):
+            GO_SWITCH.append((m.group(1), m.group(2)))
     if not calls:
         raise ParseError("no cgo calls found")
     return calls, sorted(set(consts))
+
+
+# (binding, exported name, header constant assigned to it)
+ALIASES = []
+GO_PRIVATE = {}
+GO_SWITCH = []
+
+
+def norm_const(name):
+    n = re.sub(r"[^A-Za-z0-9]", "", name).lower()
+    return n[6:] if n.startswith("pathrs") else n
 
 
 def parse_python():
@@ -232,6 +250,9 @@ def parse_python():
             n += 1
         calls.append((m.group(1), n))
     consts = sorted(set(re.findall(r"libpathrs_so\.(PATHRS_\w+)", src_nc)))
+    # named constants of the binding: NAME[: type] = libpathrs_so.PATHRS_X
+    for m in re.finditer(r"^(\w+)\s*(?::\s*[\w.\[\]]+)?\s*=\s*libpathrs_so\.(PATHRS_\w+)\s*$", src_nc, flags=re.M):
+        ALIASES.append(("python", m.group(1), m.group(2)))
     build = open(os.path.join(pydir, "pathrs_build.py")).read()
     typedefs = {}
     for m in re.finditer(r'cdef\(\s*"typedef\s+(\w+)\s+(\w+)\s*;"\s*\)', build):
@@ -291,6 +312,16 @@ def main():
     out.append("def pyCalls : List (Nat × Nat) := " + lean_list([f"({idx[n]}, {k})" for n, k in pycalls]) + "\n")
     out.append("def pyConsts : List Nat := " + lean_list([str(eidx[n]) for n in pyconsts]) + "\n")
     out.append("def pyTypedefs : List (CType × CType) := " + lean_list([f"(.{ {'dev_t': 'devt'}.get(k, 'any') }, .{v})" for k, v in sorted(pytypedefs.items())]) + "\n")
+    bynorm = {norm_const(n): n for n in set(renums) | set(henums)}
+    for public, private in GO_SWITCH:
+        # ProcBaseThreadSelf -> procbasethreadself -> "proc" + "threadself"
+        ALIASES.append(("go-switch", "PROC_" + public[len("ProcBase"):], GO_PRIVATE.get(private, "?" + private)))
+    pairs = []
+    for binding, alias, const in ALIASES:
+        want = bynorm.get(norm_const(alias))
+        pairs.append((eidx[want] if want in eidx else 10000 + len(pairs), eidx.get(const, 20000 + len(pairs)), f"{binding}:{alias}={const}"))
+    out.append("/-- " + "; ".join(p[2] for p in pairs) + " -/")
+    out.append("def aliases : List (Nat × Nat) := " + lean_list([f"({a}, {b})" for a, b, _ in pairs]) + "\n")
     out.append(f"def renamesOk : Bool := {'true' if ren.get('CProcfsBase') == 'pathrs_proc_base_t' and ren.get('CError') == 'pathrs_error_t' else 'false'}\n")
     out.append("end AbiData")
     os.makedirs(os.path.dirname(OUT), exist_ok=True)
